@@ -45,15 +45,15 @@ ASSUMPTIONS = [
     "rpyc.lib.Timeout reads the wall clock time.time(): a backwards step of the wall clock makes wait() raise late, a "
     "forwards step makes it raise earlier than the requested number of seconds; sums that are not exact in floating point "
     "can move a tie between a deadline and an arrival either way",
-    "expiry-is-final is stated for as long as the expiry is not re-armed by a later set_expiry (async_request and timed set "
-    "it once): on the pinned code `set_expiry` on an expired result makes it pending again (theorem rearm_revives; replay "
-    "`X1 T1 x X5 x` shows expired True then False), and if its reply had already been discarded it can then never "
-    "complete (`X1 T1 AF7 XN w` waits for ever) - reported; readiness-is-final is unconditional",
-    "callbacks return normally in the worlds the main theorems quantify over.  On the pinned code a callback that raises "
-    "aborts `__call__`: the result is ready and its value available, the callbacks registered after it NEVER run, the list "
-    "is not cleared, the exception surfaces in whichever thread was serving (model `callR`, theorems "
-    "C15_callbacks_counterexample / C15_callbacks_partial / raising_callback_outcome; real-code replay "
-    "`async call F 5 F 7 c1! c2`) - reported as a finding candidate, not yet decided",
+    "KNOWN FINDING C15:set_expiry-revives-expired-result (known_findings.json; reproduced on every run by known_probes): "
+    "`set_expiry` on an expired result makes it pending again (theorem rearm_revives; `X1 T1 x X5 x T1 AF7 v`), and if its "
+    "reply had already been discarded it can then never complete (`X1 C1 T1 AF7 XN x r w` waits for ever).  The theorems "
+    "state expiry-is-final for as long as the expiry is not re-armed; the oracle holds re-armed results to finality and "
+    "skips exactly that signature; readiness-is-final is unconditional",
+    "callbacks of the single-request worlds return normally; `__call__` with raising / re-entrant callbacks is `callR`, whose "
+    "loop is measured on the source (Gen.Async.callbacksAllRun): obligation callbacks_all_run + theorem C15_callbacks (every "
+    "callback runs exactly once, in order, raising ones included; the first error is re-raised after the loop).  A "
+    "BaseException that is not an Exception (KeyboardInterrupt, SystemExit) still leaves the loop at once: not modelled",
     "the connection stays open (EOFError handling is C11)",
 ]
 EXPLANATION = ("Property theorems over all event sequences and all timeout values (None, negative = infinite, zero, positive): "
@@ -64,7 +64,8 @@ EXPLANATION = ("Property theorems over all event sequences and all timeout value
                "no later than the deadline, in which case at that request's end; a sync request times out exactly tau after "
                "it was issued; several requests on one connection (replies carry their request's number) are projections of "
                "one connection and reach each other only as environment events, so finality holds per request whatever is "
-               "done with the others; `__call__` with raising / re-entrant callbacks: statement, counterexample, partial. "
+               "done with the others; `__call__` with ANY callbacks (raising, re-entrant): every one runs exactly once in order, "
+               "the first error re-raised after the loop (under the measured obligation callbacks_all_run). "
                "NOT counted as property theorems (one-step unfoldings of the transcription, kept in Async/Lemmas.lean): "
                "timeout_finite_iff, timeout_deadline, infinite_never_expires, late_reply_discarded, "
                "reply_accepted_when_pending, callback_after_ready_runs_at_once, sync_is_async_plus_timeout, "
@@ -1330,14 +1331,28 @@ def correspondence(ctx):
 
 
 # ------------------------------------------------------------------------------------------ direct oracle (real code only)
-def oracle_sequence(t0, toks):
+REARM_SIG = "C15:set_expiry-revives-expired-result"
+
+
+def oracle_sequence(t0, toks, tolerate_rearm=False):
     """The property statement as predicates over one event sequence on the real code.  Returns None or a text.
     Bookkeeping here is the statement's own: deadline = instant of the last set_expiry + its value (None/negative:
     no deadline); `arrival` = the instant a reply for the request is dispatched (the harness hands it over or the
     channel returns it from recv)."""
+    state = {"rearmed": False}
+    msg = _oracle_sequence(t0, toks, tolerate_rearm, state)
+    if msg and state["rearmed"]:
+        msg = msg.replace("): ", "): [%s: set_expiry was called after the expiry had passed] " % REARM_SIG, 1)
+    return msg
+
+
+def _oracle_sequence(t0, toks, tolerate_rearm, state):
+    """`tolerate_rearm`: judge a result that was re-armed after its expiry afresh (the listed known finding) instead of
+    holding it to 'that outcome is final'"""
     sim = Sim(t0)
     try:
         deadline = None
+        rearmed = False            # set_expiry was called on a result whose expiry had passed
         outcome = None             # None | ("ready", is_exc, payload) | ("expired",)
         registered = []            # (cid, instant registered)
         arrival_at = None
@@ -1398,8 +1413,13 @@ def oracle_sequence(t0, toks):
             if c == "X":
                 tau = parse_tau(tok[1:])
                 if outcome == ("expired",):
-                    outcome = None            # re-armed by the user: judged afresh from here
-                deadline = called_at + tau if tau is not None and tau >= 0 else None
+                    if tolerate_rearm:
+                        outcome = None        # judged afresh from here
+                        deadline = called_at + tau if tau is not None and tau >= 0 else None
+                    else:
+                        rearmed = state["rearmed"] = True   # "that outcome is final": it stays expired whatever is set now
+                else:
+                    deadline = called_at + tau if tau is not None and tau >= 0 else None
             if c in "YQZK":
                 deadline = dl_at_call
             if c == "C" and not was_ready:
@@ -1526,6 +1546,27 @@ def oracle_multi(toks):
         sim.close()
 
 
+def oracle_call(case):
+    """the statement on `__call__` alone, for any callbacks: when the reply arrives (the expiry has not passed) the result
+    is ready with its value, every registered callback has run exactly once, in registration order, each followed at
+    once by the callbacks it registered from inside; nothing stays stored; an error of a callback surfaces in the serving
+    thread; afterwards the value stays available and nothing runs again"""
+    import re
+    expired, now, exc, specs = case
+    got = re.sub(r" cb\[[^\]]*\]", " cb[]", run_call_case(case))      # (what stays stored is not the statement's business)
+    if expired:
+        want = "st F N N cb[] log[] raisedF"
+    else:
+        ids = []
+        for cid, _raises, adds, _x in specs:
+            ids += [cid] + list(adds)
+        want = "st T %s 7 cb[] log[%s] raised%s" % ("T" if exc else "F", ",".join("%d@%d" % (i, now) for i in ids),
+                                                  "T" if any(sp[1] for sp in specs) else "F")
+    if got != want:
+        return "%s: the real code gives %s, the statement requires %s" % (call_case_line(case), got, want)
+    return None
+
+
 def oracle_sync(tau, sends):
     """a synchronous request = an asynchronous one carrying the configured timeout, then .value"""
     a = run_impl(0, sends + ["Y" + tau_tok(tau)])
@@ -1568,6 +1609,8 @@ def shrink(t0, toks, pred):
 
 
 def signature_of(msg):
+    if REARM_SIG in msg:
+        return REARM_SIG
     m = msg.split("): ", 1)[-1]
     for key in ("dropped its reference", "raised", "before the expiry", "not accepted", "callbacks", "callback", "changed", "became ready", "timeout raised",
                 "timeout error without", "while pending", "expired result", "ready result", "sync_request"):
@@ -1580,9 +1623,15 @@ def oracle_search(ctx, corr, broken):
     r = Rng(ctx.seed).fork("c15-search")
     deadline = _walltime.time() + ctx.budget(60, 600)
 
+    known = getattr(ctx, "known_signatures", ())
+
     def check(t0, toks):
         try:
-            return oracle_sequence(t0, toks)
+            msg = oracle_sequence(t0, toks)
+            if msg and signature_of(msg) == REARM_SIG and REARM_SIG in known:
+                # the listed finding; look past it for anything else in this sequence
+                msg = oracle_sequence(t0, toks, tolerate_rearm=True)
+            return msg
         except BadSequence:
             return None
         except Exception as ex:  # noqa  (a crash of the real code inside a sequence is a failure of its own kind)
@@ -1613,6 +1662,11 @@ def oracle_search(ctx, corr, broken):
             f = found(t0, toks, msg)
             if f:
                 return f
+    for cs in sorted(call_cases(), key=lambda c_: len(c_[3])):
+        msg = oracle_call(cs)
+        if msg and "c15:callbacks-after-a-raising-one" not in known:
+            return (dict(kind="call", expired=cs[0], now=cs[1], exc=cs[2], callbacks=[list(sp) for sp in cs[3]]), msg,
+                    "c15:callbacks-after-a-raising-one")
     rm = Rng(ctx.seed).fork("c15-multi")
     for toks in multi_corpus() + [gen_multi(rm) for _ in range(3000)]:
         try:
@@ -1645,6 +1699,18 @@ def oracle_search(ctx, corr, broken):
     return None
 
 
+def known_probes(ctx):
+    """defects the model carries faithfully and known_findings.json lists: reproduced on the real code on every run"""
+    a = run_impl(0, "X1 T1 x X5 x T1 AF7 v".split())
+    b = run_impl(0, "X1 C1 T1 AF7 XN x r w".split())
+    revived = a.startswith("-@0 -@1 T@1 -@1 F@1 -@2 -@2 val:7@2 ")
+    stranded = b.startswith("-@0 -@0 -@1 -@1 -@1 F@1 F@1 HANG@1 ") and " log[] " in b
+    text = ("%s set_expiry on an expired AsyncResult revives it: `X1 T1 x X5 x T1 AF7 v` -> %s ; and a result re-armed after "
+            "its reply was discarded is pending for ever: `X1 C1 T1 AF7 XN x r w` -> %s" % (
+                REARM_SIG, a.split(" st ")[0], b.split(" st ")[0]))
+    return [(REARM_SIG, revived and stranded, text)]
+
+
 def replay(case):
     out = dict(case=case)
     if case.get("multi"):
@@ -1655,6 +1721,7 @@ def replay(case):
         return out
     if case.get("kind") == "call":
         cs = (case["expired"], case["now"], case["exc"], [tuple(x) for x in case["callbacks"]])
+        out["oracle"] = oracle_call(cs) or "holds"
         out["implementation"] = run_call_case(cs)
         out["model"] = run_driver([call_case_line(cs)], exe="drv_async")[0]
         return out
